@@ -9,7 +9,7 @@ HOT_ASCII = list("%%%% /?#@:&=+;[]\\\"<>^`{|}'!$()*,~._-") + ["\x00", "\x01", "\
 UNI_REPS = [
     "\x80", "\xa0", "\xe9", "\xdf", "İ", "߿", "ࠀ", "€", "​", "﻿", "￿", "�",
     "\U00010000", "\U0001f600", "\U0010ffff", "́", "\u0085", " ", "／", "？", "＃", "＠",
-    "：", "℀", "⁈", "а", "中", "א", "ا",
+    "：", "℀", "⁈", "\uff3b", "\uff3d", "\ufe47", "\ufe48", "а", "中", "א", "ا",
 ]
 SURROGATES = ["\ud800", "\udbff", "\udc00", "\udfff", "\udc80"]
 RESERVED_ESC = ["%2F", "%2f", "%2B", "%2b", "%26", "%3D", "%3d", "%3B", "%3b", "%3A", "%3a", "%40", "%23", "%3F", "%3f",
